@@ -283,7 +283,7 @@ def run(pid, tier, seed, src_note=None):
                 tags += extra
             if "drift" in tags:
                 counts["drift"] += 1
-            if any(t.startswith("V:C17") for t in tags):
+            if any(t.startswith("V:C17") or t.startswith("V:C14.number_rejected") for t in tags):
                 # the property excludes cases whose exact intermediates leave the floating-point range:
                 # ask the float layer whether this case overflows / sits next to a boundary
                 pp = case["pts"][j]
@@ -291,7 +291,7 @@ def run(pid, tier, seed, src_note=None):
                     vs_ = sorted(J.variables(case["tree"]))
                     pp = {(vs_[0] if vs_ else "whatever"): pp}
                 if set(J.variables(case["tree"])) <= set(pp) and SV.value(case["tree"], pp)[0] == "illcond":
-                    tags = [t for t in tags if not t.startswith("V:C17")]
+                    tags = [t for t in tags if not (t.startswith("V:C17") or t.startswith("V:C14.number_rejected"))]
                     counts["skipped_out_of_range"] = counts.get("skipped_out_of_range", 0) + 1
             vt = [t for t in tags if t.startswith("V:")]
             if not vt:
